@@ -13,6 +13,7 @@ import Driver.WrapDrv
 import Driver.MsgWinDrv
 import Driver.FfiDrv
 import Driver.MemLruDrv
+import Driver.IdentDrv
 
 def main (args : List String) : IO UInt32 := do
   match args with
@@ -31,4 +32,5 @@ def main (args : List String) : IO UInt32 := do
   | ["msgwin"] => Driver.MsgWinDrv.main; return 0
   | ["ffi"] => Driver.FfiDrv.main; return 0
   | ["memlru"] => Driver.MemLruDrv.main; return 0
+  | ["ident"] => Driver.IdentDrv.main; return 0
   | _ => IO.eprintln "usage: mdkdrv store < ops"; return 2
